@@ -70,24 +70,35 @@ Proof. exact cmp_refuted_width. Qed.
 Print Assumptions C02_cmp_refuted_width.
 
 (* ---- search clause vs where stage ---- *)
-(* FULL STATEMENT (false): the where stage compares numeric fields by value.
-   Guarded: not  = / !=  between a field value that is not an int64 and the literal 0. *)
-Theorem C02_where_refines_spec_guarded : forall ci o st n v,
-  stored_num st = Some v -> where_guard o st n = true ->
-  where_cmp o st n = Some (spec_cmp ci o st (LNum n)).
-Proof. exact where_refines_spec_guarded. Qed.
-Print Assumptions C02_where_refines_spec_guarded.
+(* the where stage compares numeric fields by value (exact-rational model; full strength since
+   the repair of ConvertToSameType, fixes/C02-where-failed-conversion-keeps-value) *)
+Theorem C02_where_refines_spec : forall ci o st n v,
+  stored_num st = Some v -> where_cmp o st n = Some (spec_cmp ci o st (LNum n)).
+Proof. exact where_refines_spec. Qed.
+Print Assumptions C02_where_refines_spec.
 
-(* `| where x=0` keeps every row whose x is not an integer (confirmed on the real code) *)
-Theorem C02_where_refuted_zero :
-  where_cmp Eq (SFloat (5 # 2)) (NLInt 0) = Some true /\ spec_cmp true Eq (SFloat (5 # 2)) (LNum (NLInt 0)) = false.
-Proof. exact where_refuted_zero. Qed.
-Print Assumptions C02_where_refuted_zero.
+(* ---- PRE-FIX documentation (about [where_cmp_prefix]: ConvertToSameType overwrote the left
+   value with int64(0) when its conversion failed; no longer the code) ----
+   Before the fix the statement above held only under the guard "not = / != between a field
+   value that is not an int64 and the literal 0", and was refuted without it: `| where x=0`
+   kept every row whose x is not an integer (confirmed on the pre-fix code; the harness keeps
+   the generator stream, a regression is class where_noninteger_equals_zero). *)
+Theorem C02_prefix_where_refines_spec_guarded : forall ci o st n v,
+  stored_num st = Some v -> where_prefix_guard o st n = true ->
+  where_cmp_prefix o st n = Some (spec_cmp ci o st (LNum n)).
+Proof. exact where_prefix_refines_spec_guarded. Qed.
+Print Assumptions C02_prefix_where_refines_spec_guarded.
 
-(* FULL STATEMENT (false): forall numeric st, where_cmp o st n = Some (impl_cmp ci o st (LNum n)) *)
+Theorem C02_prefix_where_zero_refuted :
+  where_cmp_prefix Eq (SFloat (5 # 2)) (NLInt 0) = Some true /\ spec_cmp true Eq (SFloat (5 # 2)) (LNum (NLInt 0)) = false.
+Proof. exact where_prefix_zero_refuted. Qed.
+Print Assumptions C02_prefix_where_zero_refuted.
+
+(* FULL STATEMENT (false): forall numeric st, where_cmp o st n = Some (impl_cmp ci o st (LNum n));
+   guarded by the search clause's comparison guard only *)
 Theorem C02_search_where_agree_guarded : forall ci o st n v,
   stored_num st = Some v -> stored_wf st = true -> lit_wf (LNum n) = true ->
-  cmp_guard o st (LNum n) = true -> where_guard o st n = true ->
+  cmp_guard o st (LNum n) = true ->
   where_cmp o st n = Some (impl_cmp ci o st (LNum n)).
 Proof. exact search_where_agree_guarded. Qed.
 Print Assumptions C02_search_where_agree_guarded.
